@@ -193,7 +193,7 @@ use slicec::slice_options::SliceOptions;
 pub struct DiagnosticSpans {
     pub arity: usize,
 }
-const DIAG_LAYOUTS: [Sep; 6] = [Sep::Space, Sep::Newline, Sep::Tab, Sep::CrLf, Sep::MultiByteComment, Sep::BlankLinesIndent];
+const DIAG_LAYOUTS: [Sep; 7] = [Sep::Space, Sep::Newline, Sep::Tab, Sep::CrLf, Sep::MultiByteComment, Sep::BlankLinesIndent, Sep::MultiByteLines];
 
 fn visual(chars: &[char], n: usize) -> usize {
     (0..n).map(|i| if chars.get(i) == Some(&'\t') { 4 } else { 1 }).sum()
@@ -219,10 +219,10 @@ fn def_extent(r: &Rendered, di: usize) -> Option<(Loc, Loc)> {
 
 impl Family for DiagnosticSpans {
     fn name(&self) -> String {
-        format!("diagnostic-spans-and-snippets/{} of {} diagnostic sources x 6 layouts (tabs, CRLF, multi-byte comments, one token per line)", ["", "singles", "ordered pairs"][self.arity], N_SOURCES)
+        format!("diagnostic-spans-and-snippets/{} of {} diagnostic sources x 7 layouts (tabs, CRLF, multi-byte comments, one token per line, non-ASCII text on every line of multi-line spans)", ["", "singles", "ordered pairs"][self.arity], N_SOURCES)
     }
     fn len(&self) -> u64 {
-        (N_SOURCES as u64).pow(self.arity as u32) * 6
+        (N_SOURCES as u64).pow(self.arity as u32) * 7
     }
     fn describe(&self, idx: u64) -> Value {
         let (p, layout, ks) = self.decode(idx);
@@ -361,8 +361,8 @@ impl Family for DiagnosticSpans {
 }
 impl DiagnosticSpans {
     fn decode(&self, idx: u64) -> (crate::model::ast::Program, Layout, Vec<usize>) {
-        let li = (idx % 6) as usize;
-        let mut r = idx / 6;
+        let li = (idx % 7) as usize;
+        let mut r = idx / 7;
         let mut ks = vec![];
         for _ in 0..self.arity {
             ks.push((r % N_SOURCES as u64) as usize);
